@@ -359,7 +359,7 @@ func main() {
 			continue
 		}
 		t0 := time.Now()
-		st, ex, left := sched.Explore(scs, p.b, runtime.NumCPU(), r.Deadline, 20)
+		st, ex, left := sched.Explore(scs, p.b, runtime.NumCPU(), r.Deadline, 100000)
 		report = append(report, map[string]any{"pass": p.name, "bounds": p.b, "completed": ex, "executions": st.Executions, "subtrees_left": left, "wall_s": time.Since(t0).Seconds(), "distinct_outcomes": len(st.Outcomes)})
 		fmt.Printf("[C12b] pass %-24s executions=%-8d outcomes=%-3d completed=%v left=%d %.1fs\n", p.name, st.Executions, len(st.Outcomes), ex, left, time.Since(t0).Seconds())
 		if !ex {
